@@ -120,7 +120,7 @@ def _jsonable(w):
 
 def explore_and_check(res, fn, build_vcs, replay=None, negative=None, explorer_kw=None,
                       use_exp_axioms=False, vc_timeout_ms=20000, catch=(Exception,),
-                      max_samples=2, key_prefix="", batch=True, max_seconds=240, stop_after_violations=3):
+                      max_samples=2, key_prefix="", batch=True, max_seconds=240, stop_after_violations=3, witness_run=True):
   """fn(): the symbolic run (returns anything).  build_vcs(path) -> list[VC]
   (may raise Structural).  replay(vc, witness, path, structural) ->
   (confirmed, desc, record).  negative(path) -> list[VC] that must NOT all hold
@@ -226,6 +226,17 @@ def explore_and_check(res, fn, build_vcs, replay=None, negative=None, explorer_k
     if len(res["violations"]) >= stop_after_violations:
       res["notes"].append("exploration stopped early after %d confirmed violations" % len(res["violations"]))
       break
+  if replay is not None and witness_run and not res["violations"]:
+    # witness run: the same concrete differential check the replays use, at a
+    # default input, against the real code (validates readers and oracle; a
+    # disagreement here is a concrete violation in its own right)
+    try:
+      confirmed, desc, rec = replay(None, {}, None, None)
+      res["replays"] += 1
+      if confirmed:
+        res["violations"].append(dict(key=key_prefix + "concrete-witness-run", desc=desc, record=rec))
+    except Exception as e:
+      res["notes"].append("witness run not available: %s: %s" % (type(e).__name__, e))
   res["paths"] += ex.stats["paths"]
   res["decisions"] += ex.stats["decisions"]
   res["queries"] += ex.stats["feasibility_queries"] + D.stats["queries"] + D.stats["pc_checks"]
